@@ -229,7 +229,11 @@ impl MCOptimiser {
                 };
             }
             rejections += loop_rejections;
-            kt *= self.kt_ratio;
+            // A temperature of zero has no reduction to make. The ratio to reach a finishing
+            // temperature from zero is not finite, which would make the temperature NaN.
+            if kt > 0. {
+                kt *= self.kt_ratio;
+            }
 
             // Where the score has converged to the precision of the convergence we can exit early
             if let Some(precision) = self.convergence {
